@@ -104,6 +104,9 @@ class Unit:
         h = self.obj_attrs.get((obj._cls, attr))
         if h is not None:
             return h(interp, obj, line)
+        if obj._cls == 'SymDict' and attr == 'get':
+            from .interp import PyFn
+            return PyFn(lambda ii, ll, key, default=None: self.sym_dict_get(ii, obj, key, default, ll))
         cls = obj._cls
         for module, cname in self.class_chain(cls):
             fi = self.sources.function(module, f'{cname}.{attr}')
@@ -112,6 +115,42 @@ class Unit:
                     return interp.call_qual(module, f'{cname}.{attr}', [], {}, bound_self=obj)
                 return FuncRef(module, f'{cname}.{attr}', bound_self=None if fi.is_staticmethod else obj)
         raise Unsupported(f'attribute {attr} of {cls}', line)
+
+    def sym_dict(self, interp, it, line):
+        """dict(<symbolic-length iterable of (key, value) pairs>) with integer keys and numeric values: lookup functions G (value) and J (index
+        of the pair that supplies it, -1 = key absent), defined for every integer key x by
+            J(x) = -1  and no pair has key x,   or   0 <= J(x) < L, key(J(x)) = x and no later pair has key x (G(x) = value(J(x)))."""
+        ctx = interp.ctx
+        L = to_z3(it.length)
+        probe = it.item(z3.Int('symdict!probe'))
+        if not (isinstance(probe, tuple) and len(probe) == 2):
+            raise Unsupported('dict of an iterable that does not yield pairs', line)
+        real = z3.is_real(to_z3(probe[1]))
+        J = ctx.fresh_fun('dict_idx', z3.IntSort(), z3.IntSort())
+        x, k = z3.Int(ctx.name('x')), z3.Int(ctx.name('k'))
+        keyf = lambda q: to_z3(it.item(q)[0])  # noqa: E731
+        ctx.assume(z3.ForAll([x], z3.And(J(x) >= -1, J(x) < L, z3.Implies(J(x) >= 0, keyf(J(x)) == x)), patterns=[J(x)]))
+        body = z3.Implies(z3.And(k > J(x), k < L, k >= 0), keyf(k) != x)
+        if '(ite ' in keyf(k).sexpr():
+            later = z3.ForAll([x, k], body)  # the key expression is not a legal trigger (contains an if-then-else): let the solver choose
+        else:
+            later = z3.ForAll([x, k], body, patterns=[z3.MultiPattern(J(x), keyf(k))])
+        ctx.assume(later)
+        ctx.use('python dict built from (key, value) pairs: lookup returns the value of the last pair with that key; absent iff no pair has the key')
+        obj = SObj('SymDict', _J=J, _it=it, _real=real)
+        return obj
+
+    def sym_dict_get(self, interp, d, key, default, line, must_exist=False):
+        ctx = interp.ctx
+        J, it = d.get('_J'), d.get('_it')
+        kz = to_z3(key)
+        if not z3.is_int(kz):
+            raise Unsupported('non-integer key into a symbolic dict', line)
+        if must_exist:
+            ctx.oblige(f'{interp.cur_func}.key-present@{line}', J(kz) >= 0, kind='pre', line=line)
+            return it.item(J(kz))[1]
+        from .values import z_ite
+        return z_ite(J(kz) >= 0, it.item(J(kz))[1], default)
 
     def obj_has_attr(self, interp, obj, attr):
         for module, cname in self.class_chain(obj._cls):
